@@ -68,6 +68,8 @@ type keyInfo struct {
 	bits  int
 	curve string // P256 P384 P521 CurveOther
 	id    int
+	// set for the keys of customCurveKeys only: the curve is this elliptic.CurveParams value
+	customCurve *elliptic.CurveParams
 }
 
 func (k *keyInfo) coq() string {
@@ -1445,6 +1447,10 @@ func (e *emitter) newVerifierCase(k *keyInfo, allow bool) {
 	})
 	ct.AllowVerificationWithNonCompliantKeys = false
 	want := "err"
+	if k.customCurve != nil {
+		e.customCurveVerifierCase(k, allow, got, emsg, sv)
+		return
+	}
 	switch k.kind {
 	case "rsa":
 		if k.bits >= 2048 || allow {
@@ -1469,10 +1475,151 @@ func (e *emitter) newVerifierCase(k *keyInfo, allow bool) {
 	})
 }
 
+// ---- ct.NewSignatureVerifier on ECDSA keys whose curve is an elliptic.CurveParams value
+//
+// The named curves a key can be parsed onto differ from P-256 in EVERY attribute at once (size,
+// name, every number), so a policy that recognises P-256 by one attribute only cannot be told from
+// one that recognises the curve.  Here the curve is a hand-built CurveParams that coincides with
+// P-256 in some attributes and not in others.
+//
+// Oracle (this file's own comparison, by VALUE, of the numbers that define the curve): without the
+// opt-in a verifier may be built only if (P, N, B, Gx, Gy, BitSize) equal P-256's; with the opt-in
+// every ECDSA key gets one.  Where the numbers do equal P-256's (a copy of the parameters) the
+// property forbids nothing, so either answer passes the oracle.
+//
+// Model side: the generated condition compares the CurveParams STRUCT with *elliptic.P256().Params()
+// (Go struct equality: the *big.Int fields by pointer, Name and BitSize by value); the case's curve
+// is P256 exactly when that struct equality holds, CurveOther otherwise.
+
+func hexInt(s string) *big.Int {
+	v, ok := new(big.Int).SetString(s, 16)
+	if !ok {
+		panic("bad hex " + s)
+	}
+	return v
+}
+
+func sameCurveNumbers(a, b *elliptic.CurveParams) bool {
+	eq := func(x, y *big.Int) bool { return x != nil && y != nil && x.Cmp(y) == 0 }
+	return a.BitSize == b.BitSize && eq(a.P, b.P) && eq(a.N, b.N) && eq(a.B, b.B) && eq(a.Gx, b.Gx) && eq(a.Gy, b.Gy)
+}
+
+type customCurve struct {
+	name string
+	cp   *elliptic.CurveParams
+}
+
+func customCurves() []customCurve {
+	p256 := elliptic.P256().Params()
+	shallow := func() *elliptic.CurveParams { c := *p256; return &c }
+	cp := func(v *big.Int) *big.Int { return new(big.Int).Set(v) }
+	deep := func(src *elliptic.CurveParams) *elliptic.CurveParams {
+		return &elliptic.CurveParams{P: cp(src.P), N: cp(src.N), B: cp(src.B), Gx: cp(src.Gx), Gy: cp(src.Gy), BitSize: src.BitSize, Name: src.Name}
+	}
+	out := []customCurve{
+		// other curves of P-256's size
+		{"sm2p256v1", &elliptic.CurveParams{Name: "sm2p256v1", BitSize: 256,
+			P:  hexInt("FFFFFFFEFFFFFFFFFFFFFFFFFFFFFFFFFFFFFFFF00000000FFFFFFFFFFFFFFFF"),
+			N:  hexInt("FFFFFFFEFFFFFFFFFFFFFFFFFFFFFFFF7203DF6B21C6052B53BBF40939D54123"),
+			B:  hexInt("28E9FA9E9D9F5E344D5A9E4BCF6509A7F39789F515AB8F92DDBCBD414D940E93"),
+			Gx: hexInt("32C4AE2C1F1981195F9904466A39C9948FE30BBFF2660BE1715A4589334C74C7"),
+			Gy: hexInt("BC3736A2F4F6779C59BDCEE36B692153D0A9877CC62A474002DF32E52139F0A0")}},
+		{"secp256k1", &elliptic.CurveParams{Name: "secp256k1", BitSize: 256,
+			P:  hexInt("FFFFFFFFFFFFFFFFFFFFFFFFFFFFFFFFFFFFFFFFFFFFFFFFFFFFFFFEFFFFFC2F"),
+			N:  hexInt("FFFFFFFFFFFFFFFFFFFFFFFFFFFFFFFEBAAEDCE6AF48A03BBFD25E8CD0364141"),
+			B:  big.NewInt(7),
+			Gx: hexInt("79BE667EF9DCBBAC55A06295CE870B07029BFCDB2DCE28D959F2815B16F81798"),
+			Gy: hexInt("483ADA7726A3C4655DA4FBFC0E1108A8FD17B448A68554199C47D08FFB10D4B8")}},
+	}
+	// P-256 with exactly one number changed (name and size unchanged)
+	one := func(what string, f func(c *elliptic.CurveParams)) {
+		c := shallow()
+		f(c)
+		out = append(out, customCurve{"p256-but-" + what, c})
+	}
+	two := big.NewInt(2)
+	one("P", func(c *elliptic.CurveParams) { c.P = new(big.Int).Add(p256.P, two) })
+	one("N", func(c *elliptic.CurveParams) { c.N = new(big.Int).Sub(p256.N, two) })
+	one("B", func(c *elliptic.CurveParams) { c.B = new(big.Int).Add(p256.B, big.NewInt(1)) })
+	one("Gx", func(c *elliptic.CurveParams) { c.Gx = new(big.Int).Add(p256.Gx, big.NewInt(1)) })
+	one("Gy", func(c *elliptic.CurveParams) { c.Gy = new(big.Int).Sub(p256.P, p256.Gy) })
+	gx2, gy2 := p256.Double(p256.Gx, p256.Gy)
+	one("G", func(c *elliptic.CurveParams) { c.Gx, c.Gy = gx2, gy2 })
+	// P-256's numbers under another size
+	for _, b := range []int{0, 249, 255, 257, 264, 384} {
+		b := b
+		one(fmt.Sprintf("BitSize-%d", b), func(c *elliptic.CurveParams) { c.BitSize = b })
+	}
+	// P-256's name (and size) on other numbers
+	for _, src := range []elliptic.Curve{elliptic.P224(), elliptic.P384(), elliptic.P521()} {
+		c := deep(src.Params())
+		c.Name = "P-256"
+		out = append(out, customCurve{"named-P-256-numbers-of-" + src.Params().Name, c})
+		c2 := deep(src.Params())
+		c2.Name, c2.BitSize = "P-256", 256
+		out = append(out, customCurve{"named-and-sized-P-256-numbers-of-" + src.Params().Name, c2})
+		// the named curve's own parameter object / a copy of it, as the key's curve
+		out = append(out, customCurve{"params-object-of-" + src.Params().Name, src.Params()})
+	}
+	// P-256 itself, given as parameters
+	out = append(out, customCurve{"params-object-of-P-256", p256})
+	out = append(out, customCurve{"shallow-copy-of-P-256", shallow()})
+	out = append(out, customCurve{"deep-copy-of-P-256", deep(p256)})
+	one("Name-prime256v1", func(c *elliptic.CurveParams) { c.Name = "prime256v1" })
+	one("Name-empty", func(c *elliptic.CurveParams) { c.Name = "" })
+	dn := deep(p256)
+	dn.Name = "secp256r1"
+	out = append(out, customCurve{"deep-copy-of-P-256-renamed", dn})
+	return out
+}
+
+func customCurveKeys() []*keyInfo {
+	var keys []*keyInfo
+	p256 := elliptic.P256().Params()
+	for _, cc := range customCurves() {
+		// the public point is the curve's stated base point (private scalar 1)
+		pub := &ecdsa.PublicKey{Curve: cc.cp, X: new(big.Int).Set(cc.cp.Gx), Y: new(big.Int).Set(cc.cp.Gy)}
+		curve := "CurveOther"
+		if *cc.cp == *p256 {
+			curve = "P256"
+		}
+		nextID++
+		keys = append(keys, &keyInfo{name: "ec-custom-" + cc.name, kind: "ecdsa", pub: pub, curve: curve, bits: cc.cp.BitSize, id: nextID, customCurve: cc.cp})
+	}
+	return keys
+}
+
+func (e *emitter) customCurveVerifierCase(k *keyInfo, allow bool, got, emsg string, sv *ct.SignatureVerifier) {
+	isP256 := sameCurveNumbers(k.customCurve, elliptic.P256().Params())
+	want := "ok|err"
+	switch {
+	case allow:
+		want = "ok"
+	case !isP256:
+		want = "err"
+	}
+	ok := strings.Contains(want, got) && got != "panic" && (got != "ok" || (sv != nil && fmt.Sprintf("%p", sv.PubKey) == fmt.Sprintf("%p", k.pub)))
+	note := ""
+	if !ok {
+		note = fmt.Sprintf("newverifier key=%s curve-name=%q curve-bitsize=%d numbers-equal-P256=%v allow=%v impl=%s want=%s: a verifier for an ECDSA key off P-256 needs the opt-in", k.name, k.customCurve.Name, k.customCurve.BitSize, isP256, allow, got, want)
+	}
+	c := k.customCurve
+	e.w.Add(lib.Case{
+		Coq: fmt.Sprintf("CNewVerifier %s %s %s", lib.Bool(allow), k.coq(), coqOutcome(got)),
+		Input: map[string]interface{}{"api": "ct.NewSignatureVerifier", "key": k.name, "allow_noncompliant": allow,
+			"curve": map[string]interface{}{"Name": c.Name, "BitSize": c.BitSize, "P": c.P.Text(16), "N": c.N.Text(16), "B": c.B.Text(16), "Gx": c.Gx.Text(16), "Gy": c.Gy.Text(16)},
+			"point": "(Gx,Gy)", "numbers_equal_p256": isP256, "struct_equal_p256": k.curve == "P256"},
+		Impl:   map[string]interface{}{"outcome": got, "error": emsg, "want": want},
+		PropOK: ok, Note: note,
+		Tags: []string{"api:NewSignatureVerifier", "key:" + k.name, "impl:" + got, fmt.Sprintf("allow:%v", allow), "curve:custom-params"},
+	})
+}
+
 func (e *emitter) newVerifierStream() {
 	var keys []*keyInfo
 	keys = append(keys, e.ks.signing...)
 	keys = append(keys, e.ks.nonsig...)
+	keys = append(keys, customCurveKeys()...)
 	// public keys with a modulus of a chosen bit length (the constructor only looks at N.BitLen())
 	for _, b := range []int{1, 8, 512, 1023, 1024, 2046, 2047, 2048, 2049, 3072, 4096, 8192} {
 		n := new(big.Int).Lsh(big.NewInt(1), uint(b-1))
